@@ -182,4 +182,21 @@ def runSS : List (Int × Int × Int) → List SS → List (Option Nat) × List S
     let q := runSS rest r.2
     (r.1 :: q.1, q.2)
 
+/-! ### `BalanceRR.Update(conf)` on the list of (backend id, BackendRR)
+
+    for index := 0; index < len(brr.backends); index++ {          // old list IN ORDER
+        if bkConf, ok := confMap[key]; ok && match { backendRR.UpdateWeight(*bkConf.Weight); keep; delete(confMap, key) }
+        else { backendRR.Release() } }
+    for _, bkConf := range confMap { new BackendRR: Init; backend.SetRestart(true); append }   // Go MAP order
+    brr.backends = backendsNew; brr.sorted = false; brr.next = 0                                                  -/
+
+def updateKept (scale : Int) (conf : List (Nat × Int)) (l : List (Nat × SS)) : List (Nat × SS) :=
+  l.filterMap fun p => (conf.lookup p.1).map fun w => (p.1, { p.2 with b := updateWeight scale w p.2.b })
+
+/-- the new members in conf order; the implementation appends them in map-iteration order (any permutation) -/
+def updateAdded (scale : Int) (conf : List (Nat × Int)) (l : List (Nat × SS)) : List (Nat × SS) :=
+  (conf.filter fun p => !(l.any fun q => q.1 == p.1)).map fun p => (p.1, { initSS scale p.2 with restarted := true })
+
+def backs (l : List (Nat × SS)) : List Backend := l.map (·.2.b)
+
 end BfeVerif.C01
